@@ -130,40 +130,44 @@ func init() {
 					rows[i], rows[j] = rows[j], rows[i]
 				}
 			}
-			// how many rows does a (possibly symbolic, signed 64-bit) count let through
-			clamp := func(v Value, n int, what string) int {
+			// how many rows does a (possibly symbolic) count let through. bun keeps LIMIT and
+			// OFFSET as int32 and writes the clause only when the value is positive.
+			clamp := func(v Value, n int, absent int, what string) int {
 				switch x := v.(type) {
 				case nil:
-					return n
+					return absent
 				case int64:
-					if x < 0 {
-						panic(TargetPanic{th.newError("pq: " + what + " must not be negative")})
+					x = int64(int32(x))
+					if x <= 0 {
+						return absent
 					}
 					if x > int64(n) {
 						return n
 					}
 					return int(x)
 				case *sym.Term:
-					cons := make([]*sym.Term, n+2)
-					for k := 0; k < n; k++ {
-						cons[k] = sym.Eq(x, sym.BVConst(uint64(k), 64))
+					x = sym.BVResize(sym.BVResize(x, 32, false), 64, true)
+					var cons []*sym.Term
+					var res []int
+					cons, res = append(cons, sym.BVCmp("bvsle", x, sym.BVConst(0, 64))), append(res, absent)
+					for k := 1; k < n; k++ {
+						cons, res = append(cons, sym.Eq(x, sym.BVConst(uint64(k), 64))), append(res, k)
 					}
-					cons[n] = sym.BVCmp("bvsle", sym.BVConst(uint64(n), 64), x)
-					cons[n+1] = sym.BVCmp("bvslt", x, sym.BVConst(0, 64))
-					k := th.ex.decide("sqlcount", n+2, cons, what)
-					if k == n+1 {
-						panic(TargetPanic{th.newError("pq: " + what + " must not be negative")})
+					lo := n
+					if lo < 1 {
+						lo = 1
 					}
-					return k
+					cons, res = append(cons, sym.BVCmp("bvsle", sym.BVConst(uint64(lo), 64), x)), append(res, n)
+					return res[th.ex.decide("sqlcount", len(cons), cons, what)]
 				}
 				panic("clamp")
 			}
 			off := 0
 			if q.offset != nil {
-				off = clamp(q.offset, len(rows), "OFFSET")
+				off = clamp(q.offset, len(rows), 0, "OFFSET")
 			}
 			rows = rows[off:]
-			lim := clamp(q.limit, len(rows), "LIMIT")
+			lim := clamp(q.limit, len(rows), len(rows), "LIMIT")
 			rows = rows[:lim]
 			// build entities
 			et := st.Elem()
